@@ -179,8 +179,12 @@ impl Sys {
                         (self.reg.broadcast_notify_utf8(&path, &t), t.into_bytes(), BodyFormat::Utf8 as u16)
                     }
                     _ => {
-                        let b = tok.to_le_bytes().to_vec();
-                        (self.reg.broadcast_notify_raw(&path, BodyFormat::RawBinary, &b), b, BodyFormat::RawBinary as u16)
+                        // the raw flavour under every format tag, with bytes that are NOT well-formed for the tag (Latin-1 text, a
+                        // multi-byte character cut in half, arbitrary binary): the given body is delivered bit for bit
+                        let mut b = tok.to_le_bytes().to_vec();
+                        b.extend_from_slice(&[b'c', b'a', b'f', 0xE9, b'\n', 0xE2, 0x82, 0xFF, 0x80]);
+                        let f = [BodyFormat::RawBinary, BodyFormat::Utf8, BodyFormat::Json, BodyFormat::Beve][(tok / 4 % 4) as usize];
+                        (self.reg.broadcast_notify_raw(&path, f, &b), b, f as u16)
                     }
                 };
                 let mut set: Vec<u8> = res.keys().map(|id| unpid(*id)).collect();
@@ -596,7 +600,36 @@ pub fn run(args: &Args) -> Report {
                 }
                 rep.eval();
                 rep.distinct(&("reentrant", npeers, insert_new));
-                let res = catching(|| reg.broadcast_notify_utf8("/bcast/reentrant", "x"));
+                // on its own thread with a bounded wait: a broadcast that keeps the registry locked while it sends never
+                // comes back from a sink that calls into the registry
+                let (tx, rx) = std::sync::mpsc::channel();
+                let reg2 = reg.clone();
+                let hb = Heartbeat::start();
+                let th = std::thread::spawn(move || {
+                    let _ = tx.send(catching(|| reg2.broadcast_notify_utf8("/bcast/reentrant", "x")));
+                });
+                let res = match rx.recv_timeout(std::time::Duration::from_secs(if miri { 600 } else { 15 })) {
+                    Ok(r) => {
+                        let _ = th.join();
+                        // the sinks hold the registry: take them out again so nothing is left cyclic
+                        for p in 0..10u8 {
+                            reg.remove(pid(p));
+                        }
+                        r
+                    }
+                    Err(_) => {
+                        if hb.max_gap_ms() > 1000 {
+                            rep.inconclusive("re-entrant broadcast did not return in 15 s, but the machine stalled");
+                        } else {
+                            rep.violation(
+                                "C18:broadcast:never-returned:sink-calls-registry",
+                                format!("{npeers} peers; the first sink reached calls PeerRegistry::remove{} from inside send_notify (legal: sends run outside the registry lock); the broadcast had not returned after 15 s", if insert_new { "/insert" } else { "" }),
+                                json!({"peers": npeers, "insert_new": insert_new}),
+                            );
+                        }
+                        continue;
+                    }
+                };
                 match res {
                     Ok(map) => {
                         let mut ids: Vec<u8> = map.keys().map(|k| unpid(*k)).collect();
